@@ -117,6 +117,7 @@ func (s *sim) makeTx(v *view, spec TxSpec) *txInfo {
 		sel0 = spec.InSel[0]
 	}
 	var respent *big.Int // value behind an outpoint re-spent inside one block
+	withCross := false   // a cross-chain output is spent next to From's own
 	switch spec.InKind {
 	case 0:
 		if len(spec.force) > 0 {
@@ -153,6 +154,16 @@ func (s *sim) makeTx(v *view, spec TxSpec) *txInfo {
 			return nil
 		}
 		ins = append(ins, sp[mod(sel0, len(sp))])
+	case 10: // own outputs plus one output waiting at the cross-chain address
+		if !pickOwn(0) {
+			return nil
+		}
+		if cc := s.ccActor(); cc != nil && from.weird == "" && from.multi == nil {
+			if co := v.utxosOf(cc.idx); len(co) > 0 {
+				ins = append(ins, co[mod(sel0, len(co))])
+				withCross = true
+			}
+		}
 	case 9: // an outpoint an earlier transaction of this same block already spends
 		if len(v.freshSpent) == 0 {
 			return nil
@@ -280,7 +291,14 @@ func (s *sim) makeTx(v *view, spec TxSpec) *txInfo {
 	}
 	// owners of the referenced outputs that are not From need their own programs;
 	// an honest multi-owner spend is not generated, so only From's program is attached.
-	if from.weird != "" {
+	if from.weird == ccShape {
+		// the cross-chain address: a self-made cross-chain script over the
+		// client's own keys, validly signed
+		if p := s.ccProgram(tx, sel0, nil); p != nil {
+			tx.SetPrograms([]*pg.Program{p})
+		}
+		s.c.Fault("spend-from-cross-chain-address")
+	} else if from.weird != "" {
 		// a script actor: nobody holds a key; the Byzantine client attaches the
 		// matching (malformed) code with arbitrary parameter bytes
 		tx.SetPrograms([]*pg.Program{{Code: from.acc.RedeemScript, Parameter: weirdParam(spec.Sign+len(spec.InSel), uint64(s.txNonce))}})
@@ -323,6 +341,12 @@ func (s *sim) makeTx(v *view, spec TxSpec) *txInfo {
 		if spec.Sign == 1 {
 			facts.signedBy[signer.idx] = true // valid, but by the wrong party
 		}
+	}
+	if withCross {
+		if p := s.ccProgram(tx, sel0, from); p != nil {
+			tx.SetPrograms(append(tx.Programs(), p))
+		}
+		s.c.Fault("spend-from-cross-chain-address:mixed-with-own-inputs")
 	}
 	if spec.Sign == 2 {
 		// a corrupting relay alters the signed content after signing
